@@ -22,6 +22,11 @@ def cases_for(ctx, n):
         traces = sorted([r, t] for r in ranks for t in TYPES + (UTYPES if k["expr"].get("plus") else []))
         base = {"kid": 0, "kernel": k, "collect": 1, "traces": traces, "abort": 0}
         seq = [dict(base, ncache=0), dict(base, ncache=2), dict(base, ncache=3, consume=1), dict(base, ncache=0, consume=1)]
+        if k["expr"].get("plus"):
+            # the output filled from B by another loop first; the judged populate expression built after that, or before it (while the output was empty):
+            # the rows describe the iteration, so the two sessions write the same files
+            for pb in (0, 1):
+                seq.append(dict(base, kid=1, kernel=dict(k, prefill="b", prebuilt=pb), ncache=0))
         # ... and with only a subset of the (rank, type) pairs registered: what one trace holds does not depend on which other traces are collected
         sub = [x for x in traces if rng.random() < 0.4]
         if sub:
